@@ -785,7 +785,7 @@ func (g *G) arrOp(c *Ctx, a []any, d int) string {
 		return g.pick(".[1:]", ".[:-1]", ".[1:3]", ".[-2:]", ".[:1]", ".[2:1]", ".[0]", ".[-1]", ".[100]", ".[1:][0]", ".[null:2]", ".[1:null]", ".["+g.small(c, d-1)+"]", ".["+g.small(c, d-1)+":]", ".[1.5]", ".[:1.2]")
 	case 17:
 		g.feat("paths")
-		return g.pick("[paths]", "[paths(type == \"number\")]", "[paths(..)]?", "[path(..)]", "[path(.[]?)]", "[path(.[0]?, .[1]?)]", "[paths] | length", "[paths(scalars)]", "[path(.. | select(type == \"string\"))]", "[tostream]", "fromstream(tostream)", "[tostream] | fromstream(.[])", "[. as $d | paths | . as $p | $d | getpath($p)] | length", "[truncate_stream(1; tostream)]?", "[getpath([0], [1], [0, 0]?)]?")
+		return g.pick("[paths]", "[paths(type == \"number\")]", "[paths(..)]?", "[path(..)]", "[path(.[]?)]", "[path(.[0]?, .[1]?)]", "[paths] | length", "[paths(scalars)]", "[path(.. | select(type == \"string\"))]", "[tostream]", "fromstream(tostream)", "[tostream] | fromstream(.[])", "[. as $d | paths | . as $p | $d | getpath($p)] | length", "[. as $d | 1 | truncate_stream($d | tostream)]?", "[getpath([0], [1], [0, 0]?)]?")
 	case 18:
 		g.feat("assign")
 		return g.pick(".[0] = ", ".[1] |= ", ".[] |= ", ".[0] += ", ".[-1] //= ", ".[2] = ", ".[1:] = ", ".[]? |= ") + g.assignRHS(ce, d)
